@@ -1,5 +1,6 @@
 import HappyModel.C01.Parse
 import HappyModel.C04.Control
+import HappyModel.C04.Spec
 namespace HappyModel.C04.Driver
 open HappyModel.Proto HappyModel.C01 HappyModel.C04
 
@@ -17,15 +18,44 @@ def parseCmd (ts : List String) : Option XCmd :=
   | ["cmd", "BK", k, o] => some (.c (.bp (.kind (natD k) (natD o != 0))))
   | ["cmd", "CLR"] => some (.c .clear)
   | ["cmd", "HP", k] => some (.c (.pauseAt (natD k)))
+  | ["cmd", "RST"] => some (.c .reset)
+  | ["cmd", "SCH", tgt, kind, mode, t, dm] =>
+    some (.c (.sched ⟨natD t, natD tgt, natD kind, natD dm != 0, 0, 0⟩ (mode == "R")))
   | ["cmd", "FIN"] => some .fin
   | _ => none
 
-def stLine (z : Sess PS) : String :=
-  s!"st {z.s.now} {z.s.processed} {if z.paused then 1 else 0} {if z.running then 1 else 0}"
+/-- the process layer's side of events created outside the loop: the creation-index mirror, the
+    harness tag, the "most recent event of this kind" handle (hv/engine_harness.py `make_event`) -/
+def procExt : Ext PS where
+  inject ps id sp :=
+    let tag := ps.tagc + 1
+    ({ ps with nid := ps.nid + 1, tagc := tag,
+               lastKind := (sp.kind, id) :: ps.lastKind.filter (fun p => p.1 != sp.kind) },
+     { sp with tag := tag })
+  reseat ps n := { ps with nid := ps.nid + n }
 
-def finLoop (endT : Option Nat) (fuel : Nat) : Nat → Sess PS → Sess PS
-  | 0, z => z
-  | n+1, z => if z.paused then finLoop endT fuel n (Sess.apply procMachine endT fuel z .go) else z
+def stLine (z : Sess PS) (hd : String := "st") : String :=
+  s!"{hd} {z.s.now} {z.s.processed} {if z.paused then 1 else 0} {if z.running then 1 else 0}"
+
+/-- what an `on_event` observer sees during one command: ordinal, time and type of every processed
+    event (delivered or swallowed by the crash gate) -/
+def dLines (before after : Sess PS) : List String :=
+  let ds := (after.s.popped.drop before.s.popped.length).filter
+    (fun p => p.2 == .delivered || p.2 == .gated)
+  (enum ds).map fun q => s!"d {before.s.processed + q.1 + 1} {q.2.1.time} {q.2.1.kind}"
+
+def finLoop (endT : Option Nat) (fuel : Nat) : Nat → Sess PS → List String → Sess PS × List String
+  | 0, z, acc => (z, acc)
+  | n+1, z, acc =>
+    if z.paused then
+      let z' := Sess.apply procMachine procExt endT fuel z .go
+      finLoop endT fuel n z' (acc ++ dLines z z' ++ [stLine z' "fr"])
+    else (z, acc)
+
+/-- log lines with an `RST` marker wherever a reset happened (`marks`: number of log entries then) -/
+def splice (lines : List String) (marks : List Nat) : List String :=
+  (enum lines).flatMap (fun q => List.replicate (marks.count q.1) "RST" ++ [q.2]) ++
+    List.replicate (marks.count lines.length) "RST"
 
 def runCtl (variant endS fuelS : String) (body : List String) : List String :=
   let p := parseProgram body
@@ -33,52 +63,30 @@ def runCtl (variant endS fuelS : String) (body : List String) : List String :=
   let endT := endT? endS
   let fuel := natD fuelS
   let cmds := body.filterMap (fun l => parseCmd (toks l))
-  let (z, outs) := cmds.foldl (fun (acc : Sess PS × List String) x =>
-      let z' := match x with
-        | .c cmd => Sess.apply procMachine endT fuel acc.1 cmd
-        | .fin => finLoop endT fuel 200 acc.1
-      (z', acc.2 ++ [stLine z'])) ({ s := s0 }, [])
-  outs ++ z.s.ent.obs.reverse.map obsLine ++
-    [s!"end {z.s.now} {z.s.processed} {z.s.nCancelled} {z.s.nStale} {if z.running then 0 else 1}"]
-
-/-- C04 Spec on implementation transcripts: the observed (controlled / recorded / reset) run must
-    deliver exactly what an uninterrupted run of the same program on the same implementation
-    delivers, and `step(n)` from a paused state must process exactly `n` events unless the run ends
-    (judged only for scripts without breakpoints or pausing hooks, which may legitimately stop a step
-    early).  Body: `cmd …` / `st …` lines in order, `#log`, observed log, `#ref`, reference log. -/
-def judgeCtl (body : List String) : List String :=
-  let pre := body.takeWhile (· != "#log")
-  let rest := (body.dropWhile (· != "#log")).drop 1
-  let log := rest.takeWhile (· != "#ref")
-  let ref := (rest.dropWhile (· != "#ref")).drop 1
-  if log != ref then ["viol control/run-differs-from-uninterrupted"]
-  else
-    let cmds := pre.filter (fun l => (toks l).head? == some "cmd")
-    let sts := pre.filter (fun l => (toks l).head? == some "st")
-    let hasBp := cmds.any fun l => match toks l with
-      | _ :: k :: _ => k == "BT" || k == "BC" || k == "BK" || k == "HP"
-      | _ => false
-    if hasBp || cmds.length != sts.length then ["ok"]
-    else
-      let rec go (prev : Option (List String)) : List (String × String) → List String
-        | [] => ["ok"]
-        | (c, st) :: r =>
-          let t := toks st
-          match toks c, prev with
-          | ["cmd", "S", n], some [_, _, p0, "1", "1"] =>
-            match t with
-            | [_, _, p1, _, run1] =>
-              if run1 == "1" && natD p1 != natD p0 + natD n then ["viol control/step-not-exact"]
-              else go (some t) r
-            | _ => go (some t) r
-          | _, _ => go (some t) r
-      go none (cmds.zip sts)
+  let z0 : Sess PS := { s := s0, pre := p.pre.map (·.1) }
+  let (z, outs, marks) := cmds.foldl (fun (acc : Sess PS × List String × List Nat) x =>
+      let z := acc.1
+      match x with
+      | .c cmd =>
+        let z' := Sess.apply procMachine procExt endT fuel z cmd
+        let marks := match cmd with
+          | .reset => acc.2.2 ++ [z.s.ent.obs.length]
+          | _ => acc.2.2
+        let ds := match cmd with
+          | .reset => []
+          | _ => dLines z z'
+        (z', acc.2.1 ++ ds ++ [stLine z'], marks)
+      | .fin =>
+        let r := finLoop endT fuel 200 z []
+        (r.1, acc.2.1 ++ r.2 ++ [stLine r.1], acc.2.2)) (z0, [], [])
+  outs ++ splice (z.s.ent.obs.reverse.map obsLine) marks ++
+    [s!"end {z.s.now} {z.s.processed} {z.accCancelled + z.s.nCancelled} {z.accStale + z.s.nStale} {if z.running then 0 else 1}"]
 
 def handle (hdr : List String) (body : List String) : List String :=
   match hdr with
   | ["run", variant, endS, fuel] => runProgram variant endS fuel body
   | ["ctl", variant, endS, fuel] => runCtl variant endS fuel body
-  | ["judge"] => judgeCtl body
+  | ["judge"] => Spec.judge body
   | _ => ["bad-mode"]
 
 end HappyModel.C04.Driver
